@@ -1,0 +1,44 @@
+//go:build verif
+// +build verif
+
+package util
+
+import "sync/atomic"
+
+// Read-only exports for the verification harness (check C20: ownership of pooled block buffers).
+
+// VerifCounters returns the pool's statistics counters: Get calls, Put calls, and how the Gets ended
+// (pooled slice larger than / equal to / smaller than the request, nothing pooled).
+func (p *BufferPool) VerifCounters() (get, put, less, equal, greater, miss uint32) {
+	if p == nil {
+		return
+	}
+	return atomic.LoadUint32(&p.get), atomic.LoadUint32(&p.put), atomic.LoadUint32(&p.less),
+		atomic.LoadUint32(&p.equal), atomic.LoadUint32(&p.greater), atomic.LoadUint32(&p.miss)
+}
+
+// VerifPooled returns the slices the pool holds right now, each over its full capacity (the real arrays,
+// not copies; the harness only compares addresses). It takes every slice out of the six sync.Pools it can
+// reach from the calling goroutine and puts them all back, so the pool holds the same slices afterwards;
+// the statistics counters are not touched. Slices cached privately by another P may be missed.
+func (p *BufferPool) VerifPooled() [][]byte {
+	if p == nil {
+		return nil
+	}
+	var out [][]byte
+	for i := range p.pool {
+		var taken []*[]byte
+		for n := 0; n < 1<<16; n++ {
+			b := p.pool[i].Get().(*[]byte)
+			if cap(*b) == 0 {
+				break
+			}
+			taken = append(taken, b)
+		}
+		for _, b := range taken {
+			out = append(out, (*b)[:cap(*b)])
+			p.pool[i].Put(b)
+		}
+	}
+	return out
+}
